@@ -38,6 +38,7 @@ func main() {
 			}
 		}
 	}
+	digest = nil // the corpus is not part of the cross-process comparison
 	r := gen.NewRand(f.Seed)
 	unitCases(r.Fork(), f.N(12, 120), f.N(6, 8))
 	sortCases(r.Fork(), f.N(400, 8000))
